@@ -259,7 +259,9 @@ func runC17(c *Ctx) {
 			if forced != nil {
 				// the path ended without a restore: allowed only on the edge where forcing reported an error
 				for _, ft := range pth.Conds {
-					if nilFact(ft, func(v ssa.Value) bool { return sameOrigin(v, ssa.Value(forced)) }, false) {
+					if nilFact(ft, func(v ssa.Value) bool {
+						return sameOrigin(v, ssa.Value(forced)) || pathLoadSource(pth, v) == ssa.Value(forced)
+					}, false) {
 						forcedFailed = true
 					}
 				}
@@ -396,6 +398,9 @@ func runC17(c *Ctx) {
 							blk = ret.Block()
 						}
 						facts := guardsOfBlock(blk)
+						if lf.pred != nil {
+							facts = lf.edgeFacts()
+						}
 						okNil, okZero := false, false
 						for _, ft := range facts {
 							if nilFact(ft, func(x ssa.Value) bool { return sameOrigin(x, ssa.Value(ctxErr)) }, false) {
